@@ -70,7 +70,9 @@ def run(tier):
         # inputs with repeated contents are the interesting ones
         def interesting(e):
             seen = [json.dumps([s["blocks"], s["tail"]]) for s in e["input"]]
-            return len(set(seen)) < len(seen) or len(e["input"]) >= 3
+            withblocks = sum(1 for s in e["input"] if s["blocks"])
+            withtails = sum(1 for s in e["input"] if s["tail"])
+            return len(set(seen)) < len(seen) or len(e["input"]) >= 3 or withblocks >= 2 or withtails >= 2
         em = [e for e in em if interesting(e)]
         cap = 3000 if tier == "quick" else 50000
         if len(em) > cap:
